@@ -232,6 +232,11 @@ impl Check for C18 {
                 SrcSpec::Radial { stops: vec![Stop { pos: 0.0, color: un }], spread: Spr::Pad, p: [1., 0.5, 3.] },
                 // a radius so small that its square underflows (degenerate gradient matrix)
                 SrcSpec::Radial { stops: vec![Stop { pos: 0.0, color: 0xff000000 }, Stop { pos: 1.0, color: un }], spread: Spr::Pad, p: [1., 0.5, 1e-30] },
+                // other degenerate constructor arguments: a sweep with equal angles, a linear
+                // gradient of zero length, a two-circle gradient with coincident circles
+                SrcSpec::Sweep { stops: vec![Stop { pos: 0.0, color: 0xff000000 }, Stop { pos: 1.0, color: un }], spread: Spr::Pad, p: [1., 0.5, 45., 45.] },
+                SrcSpec::Linear { stops: vec![Stop { pos: 0.0, color: 0xff000000 }, Stop { pos: 1.0, color: un }], spread: Spr::Reflect, p: [1., 0.5, 1., 0.5] },
+                SrcSpec::TwoCircle { stops: vec![Stop { pos: 0.0, color: 0xff000000 }, Stop { pos: 1.0, color: un }], spread: Spr::Pad, p: [1., 0.5, 2., 1., 0.5, 2.] },
             ];
             for k in 0..256u32 {
                 let alpha = k as f32 / 255.0;
